@@ -21,7 +21,7 @@ RULE = ("plain, continuous and grid environments; a pool of agent objects with d
         "(remove, strict lookup) and oob(axis, side, near|far) generated against the current state; non-trivial = >=3 "
         "residents at some point, >=1 removal from the middle followed by iteration and >=2 different rejection kinds "
         "fired; distinct = sequence of (op, outcome, population)"
-        "; also: continuous extents in (0,1), fractional out-of-bounds coordinates in grids, worlds that are not model.environment, an environment without any model, callers that edit returned listings / use the random helpers, model lifecycle ops, agents that are environments themselves (own components, inhabitants, population changing while resident), stretches of the history issued from inside a running timestep")
+        "; also: continuous extents in (0,1), fractional out-of-bounds coordinates in grids, worlds that are not model.environment, an environment without any model, callers that edit returned listings / use the random helpers, model lifecycle ops, agents that are environments themselves (own components, inhabitants, population changing while resident), stretches of the history issued from inside a running timestep, adds / removals spelled addAgent / removeAgent, agents constructed for another model")
 COMPONENTS = {"real": ["ECAgent.Core.Environment add_agent / remove_agent / get_agent / get_agents / __len__ / __iter__",
                        "SpaceWorld / DiscreteWorld / GridWorld / LineWorld add_agent / remove_agent",
                        "SystemManager component pools (observed)"],
@@ -29,7 +29,7 @@ COMPONENTS = {"real": ["ECAgent.Core.Environment add_agent / remove_agent / get_
 PROBES = ["dup_same_object", "dup_other_object", "unknown_remove", "unknown_strict_lookup", "oob_x_lo", "oob_x_hi",
           "oob_y_lo", "oob_y_hi", "oob_z_lo", "oob_z_hi", "oob_far", "reject_on_empty_environment", "remove_from_middle",
           "readd_after_remove", "plain_env", "spatial_env", "model_lifecycle_op", "caller_scrambles_listing", "oob_fractional_in_grid", "environment_without_model",
-          "agent_is_an_environment", "nested_population_changed_while_resident", "ops_from_inside_a_timestep"]
+          "agent_is_an_environment", "nested_population_changed_while_resident", "ops_from_inside_a_timestep", "deprecated_camelcase_spelling", "agent_constructed_for_another_model"]
 TECHNIQUE = "deterministic simulation: every rejection injected at states reached by seeded add/remove histories, full observable snapshot compared before/after, insertion-ordered map reference"
 LEVEL_TEXT = ("Seeded search over add/remove histories with colliding ids; after every operation length, iteration, listing and "
               "lookup must agree with an insertion-ordered reference; each injected rejection must raise the documented class "
@@ -89,6 +89,12 @@ def generate(rng, tier):
         for p_ in pool:
             p_["comps"] = []
         ops = [o for o in ops if o["op"] != "lifecycle"]
+    if not orphan and rng.random() < 0.25:
+        for p_ in pool:          # agents that were constructed for ANOTHER model (a template / builder model) and live here
+            if rng.random() < 0.4:
+                p_["foreign"] = True
+    if orphan:
+        pass
     elif rng.random() < 0.3:
         # some agents are environments themselves ("all environments are treated as agents"): with components of their own,
         # with inhabitants when they join, and with a population that changes while they are resident
@@ -100,6 +106,9 @@ def generate(rng, tier):
         for j in nested:
             for _ in range(rng.randint(0, 3)):
                 ops.insert(rng.randint(0, len(ops)), {"op": "nest", "k": j, "what": rng.choice(["add", "add", "remove"])})
+    for o_ in ops:        # the deprecated camelCase spellings (addAgent / removeAgent) are still public API: some calls use them
+        if o_.get("op") in ("add", "remove") and rng.random() < 0.08:
+            o_["camel"] = True
     if rng.random() < 0.25 and len(ops) >= 2:
         # a stretch of the history is issued from inside a running timestep (by a System, as far as the package can tell)
         i_ = rng.randint(0, len(ops) - 1)
@@ -129,6 +138,7 @@ def execute(sc, ctx):
         e.add_agent(x, 0, 0) if isinstance(e, GridWorld) else e.add_agent(x)
 
     objs = []
+    other_model = Model(seed=77)
     for i, spec in enumerate(pool):
         nest = spec.get("nest")
         if nest and not sc["world"].get("orphan"):
@@ -136,8 +146,13 @@ def execute(sc, ctx):
             ctx.probe("agent_is_an_environment")
         else:
             a = Agent(spec["id"], m)
+        home = m
+        if spec.get("foreign") and not sc["world"].get("orphan") and not isinstance(a, Environment):
+            home = other_model
+            a = Agent(spec["id"], home)
+            ctx.probe("agent_constructed_for_another_model")
         for c in spec["comps"]:
-            a.add_component(KT[c % 3](a, m))
+            a.add_component(KT[c % 3](a, home))
         if isinstance(a, Environment):
             for j in range(int(nest.get("inner", 0))):
                 inner_add(a)
@@ -223,7 +238,12 @@ def execute(sc, ctx):
                 rejected("add-duplicate", DuplicateAgentError, env.add_agent, a, *place(op["frac"]))
                 shape.append(["dup", same, len(residents)])
             else:
-                ctx.expect_ok("add", env.add_agent, a, *place(op["frac"]))
+                if op.get("camel") and (not spatial or ref.inside([0, 0, 0])):
+                    ctx.probe("deprecated_camelcase_spelling")
+                    ctx.expect_ok("add", env.addAgent, a)
+                    op = dict(op, frac=[0, 0, 0])
+                else:
+                    ctx.expect_ok("add", env.add_agent, a, *place(op["frac"]))
                 residents[a.id] = k
                 if (a.id, k) in ever:
                     ctx.probe("readd_after_remove")
@@ -239,7 +259,7 @@ def execute(sc, ctx):
                 if 0 < idx < len(residents) - 1:
                     ctx.probe("remove_from_middle")
                     pending_mid = True
-                ctx.expect_ok("remove", env.remove_agent, i_)
+                ctx.expect_ok("remove", env.removeAgent if op.get("camel") else env.remove_agent, i_)
                 del residents[i_]
                 shape.append(["rm", idx, len(residents)])
             else:
